@@ -6,6 +6,7 @@ leaves everything that was completed.
 """
 import importlib
 import json
+import os
 import sys
 import time
 import traceback
@@ -18,6 +19,12 @@ def main():
     env.setup_worker()
     from . import guard
     from .core import Rec
+
+    monitors = None
+    if os.environ.get("JV_NO_CONTRACTS") != "1":
+        from . import monitors
+
+        monitors.install()
 
     mod = importlib.import_module("jv.checks.%s" % prop.lower())
     with open(fin) as f:
@@ -53,6 +60,11 @@ def main():
             rec.inconcl("harness error: %s" % h)
         except Exception:  # noqa: BLE001
             rec.inconcl("harness exception: %s" % traceback.format_exc()[-2500:])
+        if monitors is not None:
+            try:
+                monitors.drain(rec)
+            except Exception:  # noqa: BLE001
+                rec.inconcl("contract monitor failed: %s" % traceback.format_exc()[-800:])
         js = rec.to_json()
         js["wall_s"] = round(time.time() - t0, 3)
         emit(js)
